@@ -69,7 +69,10 @@ def run_one(sc):
 
     def make_packet(i, a):
         serial[0] += 1
-        return Packet(env.now, a["sz"], serial[0], flow_id=a.get("f", 0))
+        pkt = Packet(env.now, a["sz"], serial[0], flow_id=a.get("f", 0))
+        if a.get("pre"):
+            pkt.color = a["pre"]      # the colour an upstream meter gave it
+        return pkt
 
     def on_arrival(i, a, pkt):
         rec.ev.append(dict(base, e="A", t=ex(env.now - t0), id=pkt.packet_id, sz=a["sz"], **state()))
